@@ -274,7 +274,7 @@ func LiveMPD(a *asset, mpdName string, cfg *ResponseConfig, drmCfg *drm.DrmConfi
 				mpd.PublishTime = m.ConvertToDateTime(calcPublishTime(cfg, se.lsi))
 			}
 		case timeLineNumber:
-			err := adjustAdaptationSetForTimelineNr(se, as)
+			err := adjustAdaptationSetForTimelineNr(cfg, se, as)
 			if err != nil {
 				return nil, fmt.Errorf("adjustASForTimelineNr: %w", err)
 			}
@@ -406,7 +406,7 @@ func splitPeriod(mpd *m.MPD, a *asset, cfg *ResponseConfig, wTimes wrapTimes) er
 			case segmentNumber:
 				as.SegmentTemplate.PresentationTimeOffset = pto
 				segDur := int(*as.SegmentTemplate.Duration)
-				startNr := uint32(pNr * periodDur * timeScale / segDur)
+				startNr := uint32(pNr*periodDur*timeScale/segDur + cfg.getStartNr())
 				as.SegmentTemplate.StartNumber = Ptr(startNr)
 			case timeLineTime:
 				as.SegmentTemplate.PresentationTimeOffset = pto
@@ -594,7 +594,7 @@ func adjustAdaptationSetForTimelineTime(se segEntries, as *m.AdaptationSetType) 
 	return nil
 }
 
-func adjustAdaptationSetForTimelineNr(se segEntries, as *m.AdaptationSetType) error {
+func adjustAdaptationSetForTimelineNr(cfg *ResponseConfig, se segEntries, as *m.AdaptationSetType) error {
 	if as.SegmentTemplate.SegmentTimeline == nil {
 		as.SegmentTemplate.SegmentTimeline = &m.SegmentTimelineType{}
 	}
@@ -605,7 +605,7 @@ func adjustAdaptationSetForTimelineNr(se segEntries, as *m.AdaptationSetType) er
 	as.SegmentTemplate.SegmentTimeline.S = se.entries
 
 	if se.startNr >= 0 {
-		as.SegmentTemplate.StartNumber = Ptr(uint32(se.startNr))
+		as.SegmentTemplate.StartNumber = Ptr(uint32(se.startNr + cfg.getStartNr()))
 	}
 	return nil
 }
